@@ -35,9 +35,30 @@ def main(argv=None):
         gate = common.proof_gate(pid, thorough=(tier == "thorough"))
         lib = common.ensure_build()
         common.use_build(lib)
-        ctx = Ctx(pid, seed, tier)
         if args.replay:
-            return mod.replay(ctx, json.load(open(args.replay)))
+            # re-execute the run that produced the replay file (same seed and tier: the generators are deterministic)
+            # against the CURRENT working tree and report whether the recorded violation is still there
+            rep = json.load(open(args.replay))
+            ctx = Ctx(pid, int(rep.get("seed", seed)), rep.get("tier", tier))
+            res = mod.run(ctx)
+            want = rep.get("violation")
+            if want is None:
+                print("replay: %s names what no longer checks (no failing input was found): %s"
+                      % (args.replay, json.dumps(rep.get("no_longer_checks"), default=str)[:600]))
+                return 1 if ((not gate["ok"]) or res.mismatches or res.violations) else 0
+            same = [v for v in res.violations if json.dumps(v, sort_keys=True, default=str) ==
+                    json.dumps(want, sort_keys=True, default=str)]
+            clause = [v for v in res.violations if v.get("clause") == want.get("clause")]
+            if same:
+                print("replay: reproduced on the current tree: %s" % json.dumps(want, default=str)[:800])
+                return 1
+            if clause:
+                print("replay: the same clause is violated on the current tree (different details): %s"
+                      % json.dumps(clause[0], default=str)[:800])
+                return 1
+            print("replay: not reproduced on the current tree (%d violations of other clauses)" % len(res.violations))
+            return 1 if res.violations else 0
+        ctx = Ctx(pid, seed, tier)
         res = mod.run(ctx)
     except Infra as e:
         log("INFRA: %s" % e)
@@ -56,7 +77,7 @@ def main(argv=None):
         os.unlink(stale)
     if res.violations:
         v = res.violations[0]
-        path = common.write_replay(pid, seed, {"property": pid, "kind": "failing-input",
+        path = common.write_replay(pid, seed, {"property": pid, "kind": "failing-input", "seed": seed, "tier": tier,
                                                "violation": v, "more": res.violations[1:10],
                                                "how_to_replay": "./check %s --replay <this file>" % pid})
         print("VIOLATION property=%s replay=%s" % (pid, os.path.relpath(path, common.VERIF)))
@@ -68,8 +89,8 @@ def main(argv=None):
         if res.mismatches:
             broken.append({"correspondence": "model vs implementation", "count": len(res.mismatches),
                            "first": res.mismatches[:5]})
-        path = common.write_replay(pid, seed, {"property": pid, "kind": "no-failing-input-found",
-                                               "no_longer_checks": broken,
+        path = common.write_replay(pid, seed, {"property": pid, "kind": "no-failing-input-found", "seed": seed,
+                                               "tier": tier, "no_longer_checks": broken,
                                                "search": "property evaluated on the implementation for all %d "
                                                          "generated cases incl. the mismatching ones: no failing input" % res.evaluations,
                                                "gate_log": gate.get("build_log_tail", "")[-1500:]})
